@@ -243,6 +243,9 @@ func (m *prioMon) OnEvent(w *vrt.World, ev *vrt.Event) {
 			}
 			if m.total != 0 && m.faulted == 0 {
 				m.f.fail("C07", "discipline closed %s although %d delivered items have not been released (in flight per priority %v)", ev.Ch, m.total, m.inflight)
+				if m.cfg.Script > 0 {
+					m.f.fail("C17", "after add/remove operations the discipline terminated (closed %s) although %d delivered items have not been fed back (in flight per priority %v, script %v)", ev.Ch, m.total, m.inflight, m.scriptLog)
+				}
 			}
 			if m.total != 0 && m.faulted != 0 {
 				m.f.fail("C15", "after a divider fault the discipline closed %s although %d delivered items have not been released", ev.Ch, m.total)
